@@ -237,6 +237,14 @@ def guard_val(p, pred):
     return d[-1][3] if d else None
 
 
+def width_zero(p):
+    """1 / 0 / None: the path is taken under "output width == 0" / "!= 0" / neither (both spellings of the test)"""
+    d = [x for x in p.cdecisions() if x[2][0] == 'bin' and x[2][1] in ('Eq', 'Ne') and eq(rlin(x[2][2]), OS) and x[2][3] == ('const', 0) and x[3] in (0, 1)]
+    if not d:
+        return None
+    return d[-1][3] if d[-1][2][1] == 'Eq' else 1 - d[-1][3]
+
+
 def discover(lib):
     """accessor functions by the role they play in Node::new / Node::transition / Node::find_input (not by name)"""
     roles = {}
@@ -373,7 +381,7 @@ def run(ctx, R, R2):
                     w = rlin(x[2][1])
             check_at('any:final_output', f, rlin(at) if at else None, base_any - TT - NT_OS - OS, 'the final output')
             check3(ctx, R, eq3(w, OS), 'any:final_output-width', 'the final output must be read with the output width', fn=f)
-            oz = guard_val(p, lambda e: e[0] == 'bin' and e[1] == 'Eq' and eq(rlin(e[2]), OS) and e[3] == ('const', 0))
+            oz = width_zero(p)
             fin = guard_val(p, lambda e: is_call(e, 'is_final_state'))
             ctx.check(R, oz == 0 and fin == 1, 'any:final_output-guard', 'a final output is stored iff the node is final and the output width is non-zero', fn=f)
     f = need(ANY + 'end_addr')
@@ -400,7 +408,7 @@ def run(ctx, R, R2):
         for p in rets(f):
             rv = p.ret()
             if is_call(rv, 'Output::zero'):
-                oz = guard_val(p, lambda e: e[0] == 'bin' and e[1] == 'Eq' and eq(rlin(e[2]), OS) and e[3] == ('const', 0))
+                oz = width_zero(p)
                 ctx.check(R, oz == 1, 'any:output-guard', 'outputs are absent iff the output width is 0', fn=f)
                 continue
             for x in walk(rv):
@@ -495,8 +503,13 @@ def run(ctx, R, R2):
     if f:
         for p in rets(f):
             rv = p.ret()
+            oz = width_zero(p)
             if is_call(rv, 'Output::zero'):
+                if oz is not None:
+                    ctx.check(R, oz == 1, 'one:output-guard', 'the output of a one-trans node is absent (zero) iff its output width is 0', fn=f)
                 continue
+            if oz is not None and any(is_call(x, 'unpack_uint') for x in walk(rv)):
+                ctx.check(R, oz == 0, 'one:output-guard', 'the output of a one-trans node is read from the node only when its output width is non-zero', fn=f)
             for x in walk(rv):
                 if is_call(x, 'unpack_uint'):
                     at = slice_from(x[2][0])
